@@ -63,6 +63,11 @@ AllCA == {Top} \cup Sub
 IdCa == [c \in AllCA |-> c]
 SecondSlots == [c \in AllCA |-> IF c = "B2" THEN "B" ELSE IF c = "C2" THEN "C"
                                 ELSE IF c = "D2" THEN "D" ELSE c]
+\* Children that are not hosted by this instance (names F, G): they exist
+\* only in their parent's record; their provisioning requests (list, issue
+\* with an arbitrary resource limit, revoke) are steps of the environment.
+\* Their publication points are somewhere else.
+Foreign == {"F", "G"} \cap Sub
 Roles == {"cur", "new", "old"}
 ReqKinds == {"pend", "cur", "new", "rev"}
 NoRes == {}
@@ -211,7 +216,7 @@ RM(c) == <<"rc_removed", c>>
 \* init_ca + publisher + repository + ca_add_child at the parent +
 \* ca_parent_add_or_update at the child (manager.rs import_ca does the same).
 AddCa(c, p, R) ==
-    /\ IsCa(c) /\ ~exists[c] /\ ~gone[c] /\ c # Top
+    /\ IsCa(c) /\ ~exists[c] /\ ~gone[c] /\ c # Top /\ c \notin Foreign
     /\ IsCa(p) /\ exists[p] /\ p # c
     /\ R # NoRes /\ R \subseteq Holdings(p)
     /\ exists' = [exists EXCEPT ![c] = TRUE]
@@ -512,6 +517,7 @@ DeleteCa(c) ==
            /\ pst' = [s \in AllCA |-> IF s \in S THEN NoPst ELSE pst[s]]
     /\ rst' = [rst EXCEPT ![c] = NoRst]
     /\ UNCHANGED <<pubknown, parent, hasp, ent>>
+
 
 ---------------------------------------------------------------------------
 (* Background tasks *)
@@ -817,6 +823,81 @@ RepoSyncAll ==
                    routes, pub>>
 
 ---------------------------------------------------------------------------
+(* Children that are not hosted by this instance *)
+
+\* ca_add_child for a child that is not hosted here (a CA of another
+\* operator): only the parent's record of the child comes into being.
+\* (Restriction of this model: the parent has one resource class.)
+AddForeign(f, p, R) ==
+    /\ f \in Foreign /\ cstate[f] = "none" /\ parent[f] \in {"none", p}
+    /\ IsCa(p) /\ exists[p] /\ SlotsOf(p) = {p}
+    /\ R # NoRes /\ R \subseteq Holdings(p)
+    /\ parent' = [parent EXCEPT ![f] = p]
+    /\ hasp' = [hasp EXCEPT ![f] = TRUE]
+    /\ ent' = [ent EXCEPT ![f] = R]
+    /\ cstate' = [cstate EXCEPT ![f] = "active"]
+    /\ UNCHANGED <<exists, gone, iss, sus, rc, rcv, req, routes, pub, tasks, pubknown,
+                   pst, rst, kst>>
+
+\* The provisioning requests of such a child (manager.rs rfc6492 ->
+\* rfc6492_process_request): a suspended child that calls in is unsuspended
+\* first, whatever becomes of the request; the outcome is what the parent
+\* reports about the child.
+FCall(f) == /\ f \in Foreign /\ cstate[f] # "none"
+            /\ parent[f] \in AllCA /\ exists[parent[f]]
+FWake(f) == IF cstate[f] = "suspended" /\ HasSus(f) THEN {SR(parent[f])} ELSE {}
+
+\* resource class list query
+FList(f) ==
+    /\ FCall(f)
+    /\ LET call == CallIn(f, iss[f], sus[f])
+       IN  /\ iss' = [iss EXCEPT ![f] = call.iss]
+           /\ sus' = [sus EXCEPT ![f] = call.sus]
+    /\ cstate' = [cstate EXCEPT ![f] = "active"]
+    /\ tasks' = tasks \cup FWake(f)
+    /\ kst' = [kst EXCEPT ![f] = "ok"]
+    /\ UNCHANGED <<exists, gone, parent, hasp, ent, rc, rcv, req, routes, pub, pubknown, pst, rst>>
+
+\* certificate issuance request for the child's key x with the resource
+\* limit L (no limit: L is everything on offer): the certificate carries
+\* exactly L; a limit that is not within what the parent offers is refused
+\* (misc.rs make_issued_cert, rpki RequestResourceLimit::apply_to), and so is
+\* a request when nothing is on offer.  An earlier certificate for the key is
+\* replaced.
+FIssueOk(f, L) == L # NoRes /\ L \subseteq Offer(f)
+FIssue(f, x, L) ==
+    /\ FCall(f) /\ x \in {"cur", "new"}
+    /\ LET call == CallIn(f, iss[f], sus[f])
+           p == parent[f]
+       IN  IF FIssueOk(f, L)
+           THEN /\ iss' = [iss EXCEPT ![f] = [call.iss EXCEPT ![x] = L]]
+                /\ tasks' = tasks \cup FWake(f) \cup {SR(p)}
+                /\ kst' = [kst EXCEPT ![f] = "ok"]
+                /\ sus' = [sus EXCEPT ![f] = call.sus]
+           ELSE /\ iss' = [iss EXCEPT ![f] = call.iss]
+                /\ tasks' = tasks \cup FWake(f)
+                /\ kst' = [kst EXCEPT ![f] = "fail"]
+                /\ sus' = [sus EXCEPT ![f] = call.sus]
+    /\ cstate' = [cstate EXCEPT ![f] = "active"]
+    /\ UNCHANGED <<exists, gone, parent, hasp, ent, rc, rcv, req, routes, pub, pubknown, pst, rst>>
+
+\* revocation request for the child's key x: always confirmed; the
+\* certificate (if there is one) is withdrawn and revoked; the parent tells
+\* the child to synchronise (ChildKeyRevoked; dropped for a child that is
+\* not hosted here)
+FRevoke(f, x) ==
+    /\ FCall(f) /\ x \in {"cur", "new"}
+    /\ LET call == CallIn(f, iss[f], sus[f])
+           p == parent[f]
+           had == call.iss[x] # NoRes
+       IN  /\ iss' = [iss EXCEPT ![f] = [call.iss EXCEPT ![x] = NoRes]]
+           /\ sus' = [sus EXCEPT ![f] = call.sus]
+           /\ tasks' = tasks \cup FWake(f) \cup (IF had THEN {SR(p), SP(f)} ELSE {})
+    /\ cstate' = [cstate EXCEPT ![f] = "active"]
+    /\ kst' = [kst EXCEPT ![f] = "ok"]
+    /\ UNCHANGED <<exists, gone, parent, hasp, ent, rc, rcv, req, routes, pub, pubknown, pst, rst>>
+
+---------------------------------------------------------------------------
 (* The trust anchor as Top's parent.  Top's holdings are fixed, so the only *)
 (* exchanges that matter are those of a key roll: the certificate for the   *)
 (* new key and the revocation of the old one.  Every request is answered    *)
@@ -900,6 +981,10 @@ ApiNext ==
     \/ "refresh" \in Ops /\ RefreshAll
     \/ "maintain" \in Ops /\ \E due \in BOOLEAN : Republish(due) \/ Renew(due)
     \/ "pubops" \in Ops /\ ((\E c \in Sub : PubRemove(c) \/ PubAdd(c)) \/ RepoSyncAll)
+    \/ "foreign" \in Ops /\ \E f \in Foreign :
+            \/ \E R \in SUBSET Res : AddForeign(f, ParentOf[f], R)
+            \/ FList(f)
+            \/ \E x \in {"cur", "new"} : FRevoke(f, x) \/ \E L \in SUBSET Res : FIssue(f, x, L)
 
 TaskNext == \E c \in AllCA : Task(c)
 
@@ -964,6 +1049,9 @@ CertOverclaims == {<<c, x, k>> \in AllCA \X {"cur", "old"} \X UNION {pub[d].kids
 MissingPoints == {<<c, x, k>> \in AllCA \X {"cur", "old"} \X UNION {pub[d].kids \cup pub[d].okids : d \in AllCA} :
                     /\ k \in KidsOf(c, x) /\ ValidKey(c, x) /\ pub[c][x]
                     /\ k[3] \subseteq CertRes(c, x)
+                    \* (the publication point of a child that is not hosted
+                    \* here is somewhere else)
+                    /\ k[1] \notin Foreign
                     /\ ~pub[k[1]][k[2]]}
 
 ---------------------------------------------------------------------------
